@@ -145,6 +145,8 @@ theorem binOpOf_tokOf (op : BinOp) : binOpOf (tokOf op) = some op := by cases op
 theorem tokOf_of_binOpOf {t : ItemType} {op : BinOp} (h : binOpOf t = some op) : t = tokOf op := by
   cases t <;> simp [binOpOf] at h <;> subst h <;> rfl
 
+theorem leftMin_ge (op : BinOp) : binPrec op ≤ leftMin op := by cases op <;> decide
+theorem rightMin_le (op : BinOp) : rightMin op ≤ binPrec op + 1 := by cases op <;> decide
 theorem binPrec_le (op : BinOp) : binPrec op ≤ precMul := by cases op <;> decide
 theorem binPrec_pos (op : BinOp) : 1 ≤ binPrec op := by cases op <;> decide
 
@@ -225,7 +227,7 @@ theorem exprLoop_bin (T : TableOK) {F p : Nat} {e : Expr} {st : PState} {op : Bi
     (hst : At st (⟨tokOf op, v⟩ :: ts)) (hp : p + 1 ≤ binPrec op) :
     ∃ pos st1, At st1 ts ∧
       exprLoop pf (F + 1) p e st =
-        (parseExpr pf F (binPrec op) >>= fun rhs => exprLoop pf F p (Expr.bin op pos e rhs)) st1 := by
+        (parseExpr pf F (rightMin op - 1) >>= fun rhs => exprLoop pf F p (Expr.bin op pos e rhs)) st1 := by
   obtain ⟨it, st1, hn, ht, hv, hj⟩ := next_at hst
   refine ⟨it.pos, st1, hj.at, ?_⟩
   have ht' : it.typ = tokOf op := ht
@@ -235,7 +237,8 @@ theorem exprLoop_bin (T : TableOK) {F p : Nat} {e : Expr} {st : PState} {op : Bi
   have c1 : (!isBinaryOp (tokOf op) || decide (precedence (tokOf op) < p)) = false := by
     rw [isBinaryOp_tokOf T]
     simp; omega
-  simp only [ht', c1, if_false, Bool.false_eq_true, binOpOf_tokOf, hq]
+  have hr : (if (tokOf op == ItemType.tElvis) = true then 0 else binPrec op) = rightMin op - 1 := by cases op <;> rfl
+  simp only [ht', c1, if_false, Bool.false_eq_true, binOpOf_tokOf, hq, hr]
 
 /-- at level 0 the loop enters the ternary on `?` -/
 theorem exprLoop_tern (T : TableOK) {F : Nat} {e : Expr} {st : PState} {v : Bytes} {ts : List Tk}
